@@ -231,7 +231,10 @@ def _one(item):
 # second exploration: references *to* the subject's port, taken at different moments of the history
 # ------------------------------------------------------------------------------------------------
 REF_OPS = [("set", "s1"), ("set", "bx"), ("set", "rh"), ("disconnect", None), ("badreplace", "s1"), ("badreplace", "rh"),
-           ("refby", "h0"), ("refby", "h2"), ("hset", "h0")]
+           ("refby", "h0"), ("refby", "h2"), ("hset", "h0"),
+           # a reference to a port whose own connection is a reference (chains three links deep), and a chain whose root loses
+           # its explicit signal, so that the whole chain hangs on one implicit net
+           ("chain", "h2"), ("h1drop", None)]
 REF_VALS = {"s1": sig("s1"), "bx": bref("b1", "x"), "rh": pref("h1", "a")}
 # the same exploration on a bundle-valued port: bundle instance, anonymous bundle, reference to another instance's bundle port
 REF_VALS_T = {"s1": b("bA"), "bx": anon(x=sig("s1"), y=sig("vv")), "rh": pref("h1", "t")}
@@ -253,6 +256,8 @@ def ref_histories(depth):
                 if op[0] == "disconnect" and conn is None:
                     continue
                 if op[0] == "badreplace" and conn is not None:
+                    continue
+                if op[0] == "h1drop" and op in hist:
                     continue
                 nxt.append(hist + [op])
         out += nxt
@@ -281,12 +286,12 @@ def ref_design(final, mode="a"):
         for k, bn in enumerate(("bA", "bH1", "bS2", "bDa", "bDh0", "bDh2")):
             decls += [("binst", bn, "B1"), ("inst", f"q_{bn}_x", ("ext", "P1", {"k": 10 + k}), [("a", bref(bn, "x"))]), ("inst", f"q_{bn}_y", ("ext", "P2", {"k": 20 + k}), [("a", bref(bn, "y"))])]
         tie = {"h1": b("bH1"), "s2": b("bS2"), "da": b("bDa"), "dh0": b("bDh0"), "dh2": b("bDh2")}
-    decls.append(("inst", "h1", ("mod", "Child1"), [(port, tie["h1"])]))
+    decls.append(("inst", "h1", ("mod", "Child1"), [] if final.get("h1") == "dropped" else [(port, tie["h1"])]))
     referenced = final.get("h0") == "ref" or final.get("h2") == "ref"
     iconn = [(port, vals[final["i"]])] if final.get("i") else ([] if referenced else [(port, tie["da"])])
     decls.append(("inst", "i", ("mod", "Child1"), iconn))
     h0 = [(port, pref("i", port))] if final.get("h0") == "ref" else [(port, tie["s2"])] if final.get("h0") == "s2" else [(port, tie["dh0"])]
-    h2 = [(port, pref("i", port))] if final.get("h2") == "ref" else [(port, tie["dh2"])]
+    h2 = [(port, pref("i", port))] if final.get("h2") == "ref" else [(port, pref("h0", port))] if final.get("h2") == "ref_h0" else [(port, tie["dh2"])]
     decls.append(("inst", "h0", ("mod", "Child1"), h0))
     decls.append(("inst", "h2", ("mod", "Child1"), h2))
     top = {"name": "Top", "style": "proc", "decls": decls}
@@ -335,6 +340,12 @@ def _ref_one(item):
             elif op[0] == "hset":
                 setattr(ns["h0"], port, tieobj["s2"])
                 final["h0"] = "s2"
+            elif op[0] == "chain":
+                setattr(ns["h2"], port, getattr(ns["h0"], port))
+                final["h2"] = "ref_h0"
+            elif op[0] == "h1drop":
+                ns["h1"].disconnect(port)
+                final["h1"] = "dropped"
             if set(i.conns) != ({port} if final["i"] else set()):
                 return dict(kind="conns", detail=f"after {op}: conns has {sorted(i.conns)}")
     except Exception as e:
